@@ -48,11 +48,14 @@ const c02Setup = `(do
   (def p19 {:a {} :b {:c {}} :z 1})
   (def p20 (let [e {} f (hash-map)] {:a e :b {:c f} :e e :f f}))
   (def p21 (unbase64 "AQIDBAUGBwgJCgsMDQ4PEA=="))
+  (def p22 (str2binary "{\"a\": 1 /* c */, \"b\": [1, 2] // x\n}"))
+  (def p23 (vec (range 0 12)))
+  (def p24 (apply list (range 0 10)))
   (defmacro m-conj (fn [xs y] (list 'conj xs y)))
   (defmacro m-splice (fn [xs ys] (list 'concat xs ys)))
   nil)`
 
-var c02SeedTypes = []string{"vec", "vec", "list", "vec", "map", "set", "list", "vec", "vec", "list", "vec2", "map2", "vec", "vec", "set", "code", "code", "fn", "fn", "map3", "map3", "bin"}
+var c02SeedTypes = []string{"vec", "vec", "list", "vec", "map", "set", "list", "vec", "vec", "list", "vec2", "map2", "vec", "vec", "set", "code", "code", "fn", "fn", "map3", "map3", "bin", "bin", "vec", "list"}
 
 type strTable struct{ K, V []string }
 
@@ -250,7 +253,8 @@ func (g *c02Gen) next(prefix string) *c02Op {
 		"marshal-error", "closure-from-apply", "closure-from-map", "closure-from-swap", "assoc-vec-end",
 		"assoc-in-empty", "assoc-in-empty2", "update-in-empty", "unbase64", "base64-roundtrip",
 		"def-fn-with-meta", "json-decode-proto-map", "json-decode-proto-vec", "merge-small-big", "fn-meta-shared",
-		"first-nested", "nth-nested", "get-in-nested", "get-nested", "vals", "keys", "apply-vector", "apply-list", "apply-hash-map"}
+		"first-nested", "nth-nested", "get-in-nested", "get-nested", "vals", "keys", "apply-vector", "apply-list", "apply-hash-map",
+		"json-decode-binary", "error-string-of", "str-of-error", "binary-of-str"}
 	weights := []int{8, 3, 2, 6, 2, 5, 2, 2, 2, 2, 1, 1, 1, 3, 3, 2, 1, 1, 1, 1, 1, 1, 2, 1, 1, 2, 3, 2, 1, 4, 3, 2, 2, 2, 2,
 		3, 2, 2, 3, 2, 2, 2, 2,
 		2, 1, 1,
@@ -259,7 +263,8 @@ func (g *c02Gen) next(prefix string) *c02Op {
 		2, 2, 2, 1, 2,
 		2, 1, 1, 2, 1,
 		2, 2, 1, 2, 1,
-		2, 2, 2, 1, 1, 1, 2, 1, 1}
+		2, 2, 2, 1, 1, 1, 2, 1, 1,
+		2, 2, 1, 1}
 	kind := kinds[g.tp.Weighted(LaneWork, weights)]
 	var src, typ string
 	expectParent := ""
@@ -269,6 +274,22 @@ func (g *c02Gen) next(prefix string) *c02Op {
 	lst := func() *c02Val { v := g.pick("list"); parents = append(parents, v); return v }
 	mp := func() *c02Val { v := g.pick("map"); parents = append(parents, v); return v }
 	switch kind {
+	case "json-decode-binary":
+		// the document is a binary value (it may hold comments, which JSON does not have: then decoding fails)
+		v := g.pick("bin")
+		parents = append(parents, v)
+		src, typ = "(json-decode {} "+v.Name+")", "map"
+	case "error-string-of":
+		// an error object that wraps a pool sequence is rendered as text
+		v := g.pick("vec", "list")
+		parents = append(parents, v)
+		src, typ = "(error-string (new-error "+v.Name+"))", "other"
+	case "str-of-error":
+		v := g.pick("vec", "list", "map")
+		parents = append(parents, v)
+		src, typ = "(try (throw "+v.Name+") (catch err (list (str err) (pr-str (new-error err)))))", "other"
+	case "binary-of-str":
+		src, typ = "(str2binary (str \"{\\\"k\\\": "+k+" /* "+k+" */}\"))", "bin"
 	case "first-nested":
 		// a value stored inside another collection is taken out (and extended by later operations)
 		v := g.pick("vec2")
